@@ -7,7 +7,7 @@ if ! git diff --quiet; then echo "refusing: /repo has uncommitted changes"; exit
 git apply "$patch" || { echo "patch does not apply"; exit 2; }
 if git diff --quiet; then echo "patch not applied"; exit 2; fi
 mkdir -p /tmp/vr-seeded; cp /verif/known-findings.json /tmp/vr-seeded/known-findings.json
-out=$(cd /verif && VERIF_ROOT=/tmp/vr-seeded ./check "$id" "$tier" 2>&1)
+out=$(cd /verif && VERIF_ROOT=/tmp/vr-seeded timeout ${SEEDED_TIMEOUT:-1500} ./check "$id" "$tier" 2>&1)
 rc=$?
 git -C /repo checkout -- . ; git -C /repo clean -fdq -- . >/dev/null 2>&1
 echo "exit=$rc"
